@@ -45,6 +45,37 @@ pub fn run_case(c: &Value) -> Value {
                 Err(e) => err_value(&e),
             }
         }
+        "c_date_set" | "c_dt_set" => {
+            // a (year, month, day) triple constructed through a setter: the receiver supplies the other fields
+            let v = gi(c, "v");
+            let f = gs(c, "f");
+            if op == "c_date_set" {
+                let b = date_at(gi(c, "base"));
+                res_date(match f {
+                    "year" => b.set_year(v as i32),
+                    "month" => b.set_month(v as u32),
+                    _ => b.set_day(v as u32),
+                })
+            } else {
+                let b = dt_at(gi(c, "base"), 45_296, 789, 0);
+                let r = match f {
+                    "year" => b.set_year(v as i32),
+                    "month" => b.set_month(v as u32),
+                    _ => b.set_day(v as u32),
+                };
+                match r {
+                    Ok(d) => {
+                        let p = proj_dt(&d);
+                        if p["sod"] == 45_296 && p["ns"] == 789 && p["off"] == 0 {
+                            json!({"k": "ok", "dn": p["dn"]})
+                        } else {
+                            p
+                        }
+                    }
+                    Err(e) => err_value(&e),
+                }
+            }
+        }
         "c_date_read" => {
             let d = date_at(gi(c, "dn"));
             read_obs(d.as_ymd(), d.weekday(), d.day_of_year())
